@@ -1,2 +1,148 @@
-(* Properties/C14.v — placeholder, replaced below once the proofs are in place. *)
-From Verif Require Import C14.Model.
+(* Properties/C14.v — Child-first relation ordering emits children before parents, once,
+   always ends.
+
+   ONLY statements closed by lemmas of C14/Proofs*.v, Print Assumptions and non-vacuity
+   examples.  [order ds fuel ids] is the model of the producer of annotate/order.go: it walks
+   the requested ids in order with [walk] (post-order over all relation members of all
+   versions, path-based cut) and returns the status and the list of ids sent on the channel.
+   [ds] is any datasource (any graph: cycles, self references, missing histories, several
+   versions, non-relation members are dropped by [rel_members]).  The model is tied to the
+   implementation by correspondence on the exact emission sequence (harness/cmd/c14). *)
+From Coq Require Import ZArith List Bool Lia.
+From Verif Require Import C14.Model C14.Proofs C14.ProofsTerm C14.ProofsOrder.
+Import ListNotations.
+Open Scope Z_scope.
+
+(* 1. always ends: for ANY graph, fuel above the number of relations with history + 3 is never
+      exhausted (paths are duplicate-free).  [hs] is any list holding the ids with a history. *)
+Theorem C14_walk_terminates : forall ds hs fuel ids,
+  (forall id, has_history ds id = true -> In id hs) ->
+  (length hs + 3 <= fuel)%nat -> fst (order ds fuel ids) <> SFuel.
+Proof. intros ds hs fuel ids H2 H3. exact (order_terminates ds hs H2 fuel ids H3). Qed.
+Print Assumptions C14_walk_terminates.
+
+(* 2. never an id twice — whatever the status, so also for every prefix delivered before a
+      Close, a cancel or a datasource error *)
+Theorem C14_order_nodup : forall ds fuel ids s out, order ds fuel ids = (s, out) -> NoDup out.
+Proof. exact order_nodup. Qed.
+Print Assumptions C14_order_nodup.
+
+(* 3. never an id without history *)
+Theorem C14_order_only_with_history : forall ds fuel ids s out,
+  order ds fuel ids = (s, out) -> forall y, In y out -> has_history ds y = true.
+Proof. exact order_only_with_history. Qed.
+Print Assumptions C14_order_only_with_history.
+
+(* 4. every requested relation that has a history is emitted (with 2: exactly once) *)
+Theorem C14_order_complete : forall ds fuel ids out,
+  order ds fuel ids = (SOk, out) ->
+  forall id, In id ids -> has_history ds id = true -> In id out.
+Proof. exact order_complete. Qed.
+Print Assumptions C14_order_complete.
+
+(* 5. graphs with cycles or self references (no hypothesis on the graph at all): the iteration
+      terminates normally and emits every requested relation with a history, provided the
+      datasource itself does not fail *)
+Theorem C14_cyclic_terminates_and_complete : forall ds hs fuel ids,
+  (forall id, has_history ds id = true -> In id hs) ->
+  (forall id, ds id <> HErr) -> (length hs + 3 <= fuel)%nat ->
+  exists out, order ds fuel ids = (SOk, out) /\ NoDup out /\
+    forall id, In id ids -> has_history ds id = true -> In id out.
+Proof.
+  intros ds hs fuel ids H2 H3 H4.
+  pose proof (order_ok ds hs H2 H3 fuel ids H4) as Hok.
+  destruct (order ds fuel ids) as [s out] eqn:E. cbn in Hok. subst s. exists out.
+  split; [reflexivity|]. split; [exact (order_nodup ds fuel ids SOk out E)|].
+  exact (order_complete ds fuel ids out E).
+Qed.
+Print Assumptions C14_cyclic_terminates_and_complete.
+
+(* 6. acyclic member graph (given by a rank that decreases along every member edge between
+      relations with history): every relation is emitted only after every relation with a
+      history reachable from it through relation members of any of its versions *)
+Theorem C14_order_children_first : forall ds (rank : Z -> nat),
+  (forall x m, has_history ds x = true -> In m (members_of ds x) -> has_history ds m = true ->
+     (rank m < rank x)%nat) ->
+  forall fuel ids s out, order ds fuel ids = (s, out) ->
+  forall r y, reach ds r y -> has_history ds y = true ->
+  forall l1 l2, out = l1 ++ r :: l2 -> In y l1.
+Proof. intros ds rank Hr. exact (order_children_first ds rank Hr). Qed.
+Print Assumptions C14_order_children_first.
+
+(* 7. Close or context cancellation at any point (transition system of Model.v: producer
+      between sends / blocked in the select / returned; cancellation may happen in any state):
+      afterwards at most two more steps are possible, nothing more is delivered (Next returns
+      false), the system cannot get stuck before the producer has returned, and a returned
+      producer stays returned. *)
+Theorem C14_close_terminates : forall s n s',
+  cancelled s = true -> steps n s s' ->
+  (n <= after_cancel_bound (prod s))%nat /\ received s' = received s /\ cancelled s' = true.
+Proof. exact close_terminates. Qed.
+Print Assumptions C14_close_terminates.
+
+Theorem C14_close_no_deadlock : forall s,
+  cancelled s = true -> prod s <> PDone -> exists s', step s s'.
+Proof. exact cancelled_progress. Qed.
+
+Theorem C14_done_is_final : forall s s', prod s = PDone -> step s s' ->
+  prod s' = PDone /\ received s' = received s.
+Proof. exact done_is_final. Qed.
+
+(* cancellation is possible in every state that is not yet cancelled *)
+Theorem C14_cancel_anytime : forall p r,
+  step {| prod := p; cancelled := false; received := r |} {| prod := p; cancelled := true; received := r |}.
+Proof. intros. apply st_cancel. Qed.
+
+(* ---- non-vacuity ---- *)
+(* a graph with a cycle 1 -> 2 -> 3 -> 1, a self reference 4 -> 4, a missing history 9, two
+   versions of 1 with different members, and a way member carrying number 2 *)
+Definition ex_cyc (id : Z) : hist :=
+  if id =? 1 then HFound [[(true, 2); (false, 2)]; [(true, 9); (true, 4)]]
+  else if id =? 2 then HFound [[(true, 3)]]
+  else if id =? 3 then HFound [[(true, 1)]]
+  else if id =? 4 then HFound [[(true, 4); (true, 2)]]
+  else HNotFound.
+
+Example ex_cyc_run : order ex_cyc 7 [3; 9; 1; 3] = (SOk, [2; 1; 3]).
+Proof. vm_compute. reflexivity. Qed.
+
+Example ex_cyc_hyps :
+  (forall id, has_history ex_cyc id = true -> In id [1; 2; 3; 4]) /\
+  (forall id, ex_cyc id <> HErr).
+Proof.
+  split.
+  - intros id. unfold has_history, ex_cyc.
+    destruct (Z.eqb_spec id 1); [subst; cbn; tauto|]. destruct (Z.eqb_spec id 2); [subst; cbn; tauto|].
+    destruct (Z.eqb_spec id 3); [subst; cbn; tauto|]. destruct (Z.eqb_spec id 4); [subst; cbn; tauto|].
+    discriminate.
+  - intros id. unfold ex_cyc. destruct (id =? 1); [discriminate|]. destruct (id =? 2); [discriminate|].
+    destruct (id =? 3); [discriminate|]. destruct (id =? 4); discriminate.
+Qed.
+
+(* an acyclic graph (a diamond 1 -> {2,3} -> 4) with its rank *)
+Definition ex_dag (id : Z) : hist :=
+  if id =? 1 then HFound [[(true, 2)]; [(true, 3)]]
+  else if id =? 2 then HFound [[(true, 4)]]
+  else if id =? 3 then HFound [[(true, 4); (true, 8)]]
+  else if id =? 4 then HFound [[]]
+  else HNotFound.
+
+Example ex_dag_rank : forall x m,
+  has_history ex_dag x = true -> In m (members_of ex_dag x) -> has_history ex_dag m = true ->
+  (Z.to_nat (5 - m) < Z.to_nat (5 - x))%nat.
+Proof.
+  intros x m Hx Hm Hh. unfold has_history, members_of, ex_dag in *.
+  destruct (Z.eqb_spec x 1); [subst; cbn in Hm; intuition (subst; lia)|].
+  destruct (Z.eqb_spec x 2); [subst; cbn in Hm; intuition (subst; lia)|].
+  destruct (Z.eqb_spec x 3).
+  { subst. cbn in Hm. destruct Hm as [Hm|[Hm|[]]]; subst; [lia|]. cbn in Hh. discriminate. }
+  destruct (Z.eqb_spec x 4); [subst; cbn in Hm; destruct Hm|]. discriminate.
+Qed.
+
+Example ex_dag_run : order ex_dag 7 [1; 4] = (SOk, [4; 2; 3; 1]).
+Proof. vm_compute. reflexivity. Qed.
+
+Example ex_lts_close :
+  steps 2 {| prod := PRun [5; 6]; cancelled := true; received := [4] |}
+          {| prod := PDone; cancelled := true; received := [4] |}.
+Proof. eapply steps_S; [apply st_walk_send|]. eapply steps_S; [apply st_send_cancelled|]. apply steps_O. Qed.
